@@ -794,6 +794,16 @@ func (x *EvalCtx) callExpr(n *ECall) Val {
 		}
 		hi := app("+", xs.Sl.Off, xs.Sl.Len)
 		return Val{T: boolT, S: fmt.Sprintf("(forall ((%s Int)) (! (=> (and (<= %s %s) (< %s %s)) %s) :pattern (%s)))", k, xs.Sl.Off, k, k, hi, body, el.S)}
+	case "repeat":
+		// repeat(s, n): strings.Repeat as a function
+		a, b := x.eval(n.Args[0]), x.eval(n.Args[1])
+		x.s.c.declare("repeatS", "(declare-fun repeatS (Str Int) Str)")
+		return Val{T: strT, S: app("repeatS", a.S, b.S)}
+	case "mkclean":
+		a := x.eval(n.Args[0])
+		x.s.declMk()
+		x.facts = append(x.facts, implies(app("clean", a.S), app("mkclean", a.S)))
+		return Val{T: boolT, S: app("mkclean", a.S)}
 	case "valid":
 		a := x.eval(n.Args[0])
 		return Val{T: boolT, S: app("validI", a.S)}
@@ -890,11 +900,36 @@ func (x *EvalCtx) callExpr(n *ECall) Val {
 		}
 		con := x.s.c.eng.contracts.Funcs[kn.V]
 		parts := strings.Split(kn.V, ".")
-		if con == nil || !con.Deterministic || len(parts) != 3 {
-			return x.fail("detcall: %s is not a deterministic interface contract", kn.V)
+		if con == nil || !con.Deterministic || len(parts) < 2 || len(parts) > 3 {
+			return x.fail("detcall: %s is not a deterministic contract", kn.V)
 		}
 		sp := x.s.c.eng.pkgByName[parts[0]]
 		var sig *types.Signature
+		if fns := x.s.c.eng.fnByKey[kn.V]; len(fns) > 0 && con.Kind != "iface" {
+			// a plain function or method declared deterministic: its first result as a function of its arguments
+			fsig := fns[0].Signature
+			var args []Val
+			var as []string
+			for _, a := range n.Args[1:] {
+				v := x.eval(a)
+				args = append(args, v)
+				as = append(as, flatten(v)...)
+			}
+			if fsig.Results().Len() < 1 {
+				return x.fail("detcall: %s has no result", kn.V)
+			}
+			rt := fsig.Results().At(0).Type()
+			cs := comps(rt)
+			terms := make([]string, len(cs))
+			for j, c := range cs {
+				terms[j] = app(x.s.c.eng.detFn(kn.V, 0, j, args, c.Sort), as...)
+			}
+			v, _ := unflatten(rt, terms)
+			return v
+		}
+		if len(parts) != 3 {
+			return x.fail("detcall: cannot resolve %s", kn.V)
+		}
 		if sp != nil {
 			if tm, ok := sp.Members[parts[1]].(*ssa.Type); ok {
 				if it, ok := tm.Type().Underlying().(*types.Interface); ok {
